@@ -29,6 +29,15 @@ CLAIMS = {
             'Proof for every module whose theorem is listed in obligations/C03.json (statement over all pairs of strings and all option values, on the '
             'definition regenerated from the current source); the wrappers whose validate() cleans differently from compact() are covered by '
             'the search only and listed as uncovered in the evidence.', '§4 C03', ''),
+    'C05': ('Lean 4 theorems on the regenerated model (generator = check character of every accepted number; uniqueness; completion of a payload validates) for ean, issn, isbn-10, imei, aadhaar, grid, isni; differential run; failing-input search over ~100 generator modules',
+            'Proof for the formats listed in obligations/C05.json (all accepted numbers / all well-formed payloads, unbounded where the format is); the other generator modules are '
+            'covered by the search only (listed as uncovered).', '§4 C05, §8', ''),
+    'C07': ('Lean 4 theorems on the regenerated model: validate = declarative predicate written from the published rule (Spec.Standards) for every string, for the formats proved so far; the Lean predicates are cross-checked against an independent Python transcription; failing-input search incl. exhaustive small spaces',
+            'Proof of exact agreement (all strings) for the formats listed in obligations/C07.json; the remaining formats of the property are covered by the search against the independent '
+            'Python reference only (listed as uncovered). Spec.Standards itself is tied to that reference by tools/corr/standards.py.', '§4 C07, §8', ''),
+    'C17': ('Lean 4 theorems on the regenerated model (single substitution / adjacent transposition of an accepted number is rejected) for 17 formats via refinement to the generic algorithms and the abstract fold-detection theorem; differential run; exhaustive neighbourhood search',
+            'Proof for the formats listed in obligations/C17.json (every accepted number, every position, every same-class replacement); three ISBN-13/ISMN statements carry an extra ASCII-digit '
+            'hypothesis (named _partial). Other listed formats: search only.', '§4 C17, §8', ''),
     'C06': ('Lean 4 theorems (abstract fold detection theorem + instances, unbounded length, all even Luhn bases) on a hand-written model tied to the code by a differential run; failing-input search',
             'Proof on the spec-level model Spec.Checksum of the eight algorithm modules for every word length and every alphabet of the stated '
             'shape; the model is hand-written and its tie to stdnum is the differential run tools/corr/checksum.py (every check) plus the '
